@@ -2,12 +2,23 @@
  * every region between Py_BEGIN_ALLOW_THREADS and Py_END_ALLOW_THREADS (code that runs WITHOUT the GIL) with the
    functions called inside it;
  * every variable with static storage duration that the extension can modify (file- or function-level 'static'
-   that is not const, and non-extern globals): state that survives a call and is shared by all threads."""
+   that is not const, and non-extern globals): state that survives a call and is shared by all threads;
+ * every call of a printf-family function or of a printf-like macro (a macro that hands __VA_ARGS__ / a parameter on as the
+   FORMAT of such a function, found by fixpoint: psutil_debug) in the .c AND .h files, with the kind of its FORMAT
+   argument: 0 = string literal(s), 1 = the macro parameter handed on inside the body of a printf-like macro, 2 = anything
+   else (a variable, a call, a caller-controlled string)."""
 import glob
 import os
 import re
 
 C_FILES = ["psutil/_psutil_linux.c", "psutil/_psutil_posix.c", "psutil/_psutil_common.c", "psutil/arch/linux/*.c"]
+H_FILES = ["psutil/_psutil_common.h", "psutil/_psutil_posix.h", "psutil/arch/linux/*.h"]
+# printf family: name -> index of the FORMAT argument
+PRINTF = {"printf": 0, "fprintf": 1, "dprintf": 1, "sprintf": 1, "snprintf": 2, "asprintf": 1, "vprintf": 0, "vfprintf": 1, "vdprintf": 1,
+          "vsprintf": 1, "vsnprintf": 2, "vasprintf": 1, "syslog": 1, "vsyslog": 1, "errx": 1, "warnx": 0,
+          "PyErr_Format": 1, "PyErr_FormatV": 1, "PyUnicode_FromFormat": 0, "PyUnicode_FromFormatV": 0, "PyBytes_FromFormat": 0,
+          "PyBytes_FromFormatV": 0, "PyOS_snprintf": 2, "PyOS_vsnprintf": 2, "PyErr_WarnFormat": 2, "PySys_WriteStdout": 0,
+          "PySys_WriteStderr": 0, "PySys_FormatStdout": 0, "PySys_FormatStderr": 0}
 KEYWORDS = {"if", "while", "for", "switch", "return", "sizeof", "defined", "do", "else"}
 
 
@@ -143,8 +154,104 @@ def scan(root):
     return regions, statics
 
 
+def _split_args(text, pos, rel):
+    """text[pos] == '(': the top-level comma separated arguments up to the matching ')' (string literals are blanked already)"""
+    depth, i, start, args = 0, pos, pos + 1, []
+    while i < len(text):
+        c = text[i]
+        if c in "([{":
+            depth += 1
+        elif c in ")]}":
+            depth -= 1
+            if depth == 0:
+                args.append(text[start:i])
+                return args
+        elif c == "," and depth == 1:
+            args.append(text[start:i])
+            start = i + 1
+        i += 1
+    raise TranslateError("%s: unbalanced parentheses in a call at offset %d" % (rel, pos))
+
+
+_LIT = re.compile(r'(?:"[^"]*"|PRI[A-Za-z0-9]+|\s|\\\n)+')
+
+
+def scan_formats(root):
+    """-> (calls [(file, line, callee, kind, enclosing macro or '')], printf-like macros [name])"""
+    files = []
+    for pat in C_FILES + H_FILES:
+        files += sorted(glob.glob(os.path.join(root, pat)))
+    texts = []
+    for path in files:
+        rel = os.path.relpath(path, root)
+        src = active_text(strip_comments(open(path, encoding="utf-8", errors="replace").read()))
+        macros = []       # (name, params, first offset, last offset) of function-like macro definitions
+        off = 0
+        lines = src.split("\n")
+        i = 0
+        offs = []
+        for ln in lines:
+            offs.append(off)
+            off += len(ln) + 1
+        while i < len(lines):
+            m = re.match(r"\s*#\s*define\s+(\w+)\(([^)]*)\)", lines[i])
+            if m:
+                j = i
+                while lines[j].rstrip().endswith("\\") and j + 1 < len(lines):
+                    j += 1
+                params = [x.strip() for x in m.group(2).split(",") if x.strip()]
+                macros.append((m.group(1), params, offs[i] + m.end(), offs[j] + len(lines[j])))
+                i = j + 1
+            else:
+                i += 1
+        texts.append((rel, src, macros))
+    callees = dict(PRINTF)
+    like = []
+    while True:          # fixpoint: macros that hand a parameter on as FORMAT are printf-like themselves
+        calls, grew = [], False
+        for rel, src, macros in texts:
+            for m in re.finditer(r"\b([A-Za-z_]\w*)\s*\(", src):
+                name = m.group(1)
+                if name not in callees:
+                    continue
+                if re.search(r"#\s*define\s+$", src[max(0, m.start() - 40):m.start()]):
+                    continue        # the head of the macro's own definition
+                # a declaration / definition of a function of that name is not a call
+                args = _split_args(src, m.end() - 1, rel)
+                k = callees[name]
+                if len(args) <= k:
+                    raise TranslateError("%s:%d: %s called with %d arguments, FORMAT expected at position %d" % (
+                        rel, src.count("\n", 0, m.start()) + 1, name, len(args), k))
+                fmt = args[k].strip()
+                inmac = [mc for mc in macros if mc[2] <= m.start() <= mc[3]]
+                kind, mname = 2, ""
+                if '"' in fmt and _LIT.fullmatch(fmt):
+                    kind = 0
+                elif inmac:
+                    mn, params, _a, _b = inmac[0]
+                    named = [p for p in params if p != "..."]
+                    idx = None
+                    if fmt == "__VA_ARGS__" and "..." in params:
+                        idx = len(named)
+                    elif fmt in named:
+                        idx = named.index(fmt)
+                    if idx is not None:
+                        kind, mname = 1, mn
+                        if mn not in callees:
+                            callees[mn] = idx
+                            like.append(mn)
+                            grew = True
+                calls.append((rel, src.count("\n", 0, m.start()) + 1, name, kind, mname))
+        if not grew:
+            break
+    if not calls:
+        raise TranslateError("no printf-family call found in the C sources (scanner broken?)")
+    return calls, like
+
+
 def gallina(root):
     regions, statics = scan(root)
+    fcalls, fmacros = scan_formats(root)
 
     def q(s):
         return '"%s"%%string' % s
@@ -155,7 +262,14 @@ def gallina(root):
            "  [" + ";\n   ".join("(%s, %d%%Z, [%s])" % (q(f), ln, "; ".join(q(c) for c in cs)) for f, ln, cs in regions) + "].", "",
            "(* modifiable variables with static storage duration: (file, name) *)",
            "Definition mutable_statics : list (string * string) :=",
-           "  [" + ";\n   ".join("(%s, %s)" % (q(f), q(n)) for f, n in statics) + "].", ""]
+           "  [" + ";\n   ".join("(%s, %s)" % (q(f), q(n)) for f, n in statics) + "].", "",
+           "(* every call of a printf-family function / printf-like macro in the .c and .h files: (file, line, callee, kind of the",
+           "   FORMAT argument: 0 string literal, 1 macro parameter handed on in the body of the named macro, 2 anything else, macro) *)",
+           "Definition format_calls : list (string * Z * string * Z * string) :=",
+           "  [" + ";\n   ".join("(%s, %d%%Z, %s, %d%%Z, %s)" % (q(f), ln, q(c), k, q(mn)) for f, ln, c, k, mn in fcalls) + "].", "",
+           "(* macros found to hand a parameter / __VA_ARGS__ on as FORMAT: their own calls are in format_calls too *)",
+           "Definition printf_like_macros : list string :=",
+           "  [" + "; ".join(q(n) for n in fmacros) + "].", ""]
     return "\n".join(txt)
 
 
